@@ -47,6 +47,7 @@ var c18Lemmas = []string{
 	"uePolicyContainer.verifLemmaPolicyPart", "uePolicyContainer.verifLemmaResult",
 	"uePolicyContainer.verifLemmaInstruction2", "uePolicyContainer.verifLemmaSubList", "uePolicyContainer.verifLemmaList2",
 	"uePolicyContainer.verifLemmaSubResult2", "uePolicyContainer.verifLemmaMessage",
+	"uePolicyContainer.verifLemmaCommandNested", "uePolicyContainer.verifLemmaRejectNested",
 }
 
 func c18(w *core.World, rep *core.Report) {
@@ -88,7 +89,7 @@ func c18(w *core.World, rep *core.Report) {
 		w.Cx.Contracts[k] = c
 	}
 	rep.Bounded = append(rep.Bounded,
-		core.Bounded{Function: "uePolicyContainer round-trip lemmas", Bound: "policy part, result and the three delivery messages: contents of any length; instruction: 2 parts of any length; sublist: 1 instruction with 1 part of any length; list: 2 sublists with one 2- and one 3-octet part; subresult: 2 results"})
+		core.Bounded{Function: "uePolicyContainer round-trip lemmas", Bound: "policy part, result and the three delivery messages: contents of any length; instruction: 2 parts of any length; sublist: 1 instruction with 1 part of any length; list: 2 sublists with one 2- and one 3-octet part; subresult: 2 results; end to end: a command (with and without classmark) carrying a nested list of 1 sublist / 1 instruction / 1 part, a reject carrying 1 subresult with 2 results"})
 	rep.Floor = 300
 	rep.AddUnique(&rep.Assumptions,
 		"MCC/MNC are passed as integers by this API: an MCC below 100 or a 3-digit MNC below 100 (leading zeros) cannot be expressed; SetPlmnDigit is specified for the values it accepts",
